@@ -13,7 +13,8 @@ RULE = ("contexts: predefined catalogue and random user histories; "
         "(b) quantity x plain object of 10 kinds (int, bool, zero, Fraction, "
         "Decimal, stdlib Decimal, float, complex, str, None) x both orders; "
         "(c) same-type pairs/triples: sum, difference, negation, abs, sum() "
-        "of lists, k*(a+b) vs k*a+k*b, compared with exact reference values. "
+        "of lists, k*(a+b) vs k*a+k*b, compared with exact reference values; "
+        "one in four same-type pairs in a quantised type (DataVolume, user quanta): result in the LEFT unit, rounded once. "
         "Non-trivial: every case (mixed pairs must raise, same-type sums are "
         "checked by value); distinct by (op, classes, unit pair)")
 EXHAUSTIVE = {}
@@ -43,6 +44,7 @@ def gen_cases(rng, tier):
         ops = []
         allu = list(ctx.units)
         lin = [u for u in ctx.linear_units() if ctx.quantum(u) is None]
+        qlin = [u for u in ctx.linear_units() if ctx.quantum(u) is not None]
         for _ in range(per):
             r = rng.random()
             if r < .3:
@@ -59,7 +61,11 @@ def gen_cases(rng, tier):
                 ops.append(["q_mixnum", rng.choice(MIXOPS), f"{a}@{u}", rng.choice(KINDS)])
             elif r < .85 and lin:
                 u = rng.choice(lin)
-                v = rng.choice([x for x in lin if ctx.units[x]["cls"] == ctx.units[u]["cls"]])
+                # one in four: a quantised type (the sum is rounded once, in
+                # the LEFT operand's unit, whichever unit is the finer one)
+                if qlin and rng.random() < .25:
+                    u = rng.choice(qlin)
+                v = rng.choice([x for x in lin + qlin if ctx.units[x]["cls"] == ctx.units[u]["cls"]])
                 a = rng.choice(["0", _qty.tok(rng, _qty.amount(rng))])
                 b = rng.choice(["0", _qty.tok(rng, _qty.amount(rng))])
                 op = rng.choice(["add", "sub", "add", "sub", "neg", "abs"])
@@ -100,16 +106,19 @@ def oracle(case, impl):
                 if out != exp:
                     fails.append({"site": "mix:types", "msg": f"{o} -> {out}, expected {exp}"})
             elif o[1] in ("add", "sub"):
-                x, y = _qty.tok_value(a), _qty.tok_value(b)
+                # operands as constructed (on their grid if the type has a quantum)
+                x, y = ctx.grid(u, _qty.tok_value(a), o[4]), ctx.grid(v, _qty.tok_value(b), o[4])
                 su, sv = ctx.units[u]["scale"], ctx.units[v]["scale"]
                 sign = 1 if o[1] == "add" else -1
-                # left operand's unit; reference value = sum of reference values
-                exp = "ok " + ctx.qty((x * su + sign * y * sv) / su, u)
+                # left operand's unit; reference value = sum of reference
+                # values (rounded once to the left unit's grid, if any)
+                exp = "ok " + ctx.qty(ctx.grid(u, (x * su + sign * y * sv) / su, o[4]), u)
                 if out != exp:
                     fails.append({"site": "add:value", "msg": f"{o} -> {out}, expected {exp}"})
         elif o[0] == "q_num" and o[1] in ("neg", "abs"):
             a, _, u = o[2].rpartition("@")
             x = _qty.tok_value(a)
+            x = ctx.grid(u, x, o[4])
             exp = "ok " + ctx.qty(-x if o[1] == "neg" else abs(x), u)
             if out != exp:
                 fails.append({"site": "add:neg-abs", "msg": f"{o} -> {out}, expected {exp}"})
